@@ -1311,10 +1311,14 @@ pub fn shrink(cfg: &Cfg, kt: KeyType, ops: &[Op], opts: &RunOpts, prop: &str, ru
     }
     let mut chunk = cur.len() / 2;
     let mut budget = SHRINK_BUDGET.load(std::sync::atomic::Ordering::Relaxed);
-    while chunk >= 1 && budget > 0 {
+    // shrinking only makes the witness shorter; on histories of thousands of steps over
+    // thousands of entries it is cut off after a while (the unshrunk history replays as well)
+    let t0 = std::time::Instant::now();
+    let in_time = move || t0.elapsed().as_secs() < 30;
+    while chunk >= 1 && budget > 0 && in_time() {
         let mut i = 0;
         let mut progressed = false;
-        while i + chunk <= cur.len() && budget > 0 {
+        while i + chunk <= cur.len() && budget > 0 && in_time() {
             let mut cand = cur.clone();
             cand.drain(i..i + chunk);
             budget -= 1;
